@@ -1156,6 +1156,10 @@ MUTANTS = [
     _m("ext2d-vertical-signs-from-constants", "cf_data_vertical = np.hstack((cf_data_vertical, cf_data_2d))", "cf_data_vertical = np.hstack((cf_data_vertical, np.ones(cf_rows_2d.size)))",
        "R2", file=EXT),
     # reverted forms of the applied fixes
+    _m("revert-fix-1f111df5c-vertical-signs-from-constants", "    cf_data = np.vstack((cf_sgn_vert, -tmp, tmp)).ravel(\"F\")", "    cf_data = np.vstack((-tmp, tmp, -tmp, tmp)).ravel(\"F\")",
+       "R2", file=EXT),
+    _m("ext1d-vertical-signs-interleaved", "    cf_sgn_vert = np.tile(\n        g.cell_faces.data.reshape((2, -1), order=\"F\"), num_cell_layers\n    )",
+       "    cf_sgn_vert = np.repeat(\n        g.cell_faces.data.reshape((2, -1), order=\"F\"), num_cell_layers, axis=1\n    )", "R2", file=EXT),
     _m("revert-fix-7d04e5f0c-hits-not-reordered-by-cell", "        equal = equal[np.argsort(equal[:, 1])]\n", "", "R1", control=True),
     _m("revert-fix-35a12ad03-parent-tile", "    parent = np.repeat(np.arange(g.num_cells), g.dim + 2)", "    parent = np.tile(np.arange(g.num_cells), g.dim + 2)", "R1", control=True),
     _m("revert-fix-2a10c3b19-face-layers-counted-in-nodes", "        cf_vert_this = nf_old * k + cf_old", "        cf_vert_this = nn_old * k + cf_old", "R2", file=EXT, control=True),
